@@ -4,7 +4,10 @@
    The model is parametrised by a record of SHAPE FACTS; [src_cfg] is the instance read
    from the current source by translate/g_eventual.py (coq/gen/EventualGen.v).  Callables
    are scripts: a callable has an identity, a list of actions it performs when it runs
-   (eventually(s') / flushEventualQueue()), and may end by raising.  No proofs here. *)
+   (eventually(s') / flushEventualQueue()), and may end by raising.  The callback attached to
+   the Deferred of a flushEventualQueue() call is again an arbitrary list of actions
+   (eventually(s') / flushEventualQueue() with a callback ...), nested to any depth.
+   No proofs here. *)
 From Coq Require Import ZArith List Bool.
 Import ListNotations.
 Require Import Verif.gen.EventualGen.
@@ -15,8 +18,9 @@ Local Open Scope Z_scope.
 Inductive rkind := RNo | RExc | RBase.
 
 Inductive script := Sc (id : Z) (acts : list act) (raises : rkind)
-with act := AEnq (s : script) | AFlush (fid : Z) (cb : list script).
-(* AFlush fid cb: d = flushEventualQueue(); d.addCallback(lambda _: [eventually(s) for s in cb]) *)
+with act := AEnq (s : script) | AFlush (fid : Z) (cb : list act).
+(* AFlush fid cb: d = flushEventualQueue(); d.addCallback(lambda _: [perform a for a in cb]) -- the callback
+   performs the actions cb, which may call flushEventualQueue() again, with a callback of the same kind *)
 
 Definition sid (s : script) : Z := match s with Sc i _ _ => i end.
 Definition sacts (s : script) : list act := match s with Sc _ a _ => a end.
@@ -30,32 +34,38 @@ Record evcfg := {
   c_catch : catchmode;       (* what the try/except around each call catches *)
   c_fire : firemode;         (* how _turn serves the flush observers after the batch *)
   c_marks : bool;            (* self._in_turn is True while the batch runs *)
-  c_guard : flushguard       (* when flush() returns an already-fired Deferred *)
+  c_guard : flushguard;      (* when flush() returns an already-fired Deferred *)
+  c_append_runs : bool       (* append() itself calls cb(..): the callable runs inside eventually() *)
 }.
 
 Definition src_cfg : evcfg := {|
   c_pos := ev_append_pos; c_arms := ev_append_arms_timer; c_clears := ev_turn_clears_timer;
   c_order := ev_iter_order; c_catch := ev_catch; c_fire := ev_fire_mode;
-  c_marks := ev_turn_marks_batch; c_guard := ev_flush_guard |}.
+  c_marks := ev_turn_marks_batch; c_guard := ev_flush_guard; c_append_runs := ev_append_runs_callable |}.
 
 (* the code as it was before commit "flushEventualQueue waits for the batch that is being run" *)
 Definition old_cfg : evcfg := {|
   c_pos := Tail; c_arms := true; c_clears := true; c_order := Forward; c_catch := CatchAll;
-  c_fire := FireAllIfEmpty; c_marks := false; c_guard := FlushWhenNoEvents |}.
+  c_fire := FireAllIfEmpty; c_marks := false; c_guard := FlushWhenNoEvents; c_append_runs := false |}.
 
 (* ... and before commit "flush observers are only notified while the eventual queue is still empty" *)
 Definition old2_cfg : evcfg := {|
   c_pos := Tail; c_arms := true; c_clears := true; c_order := Forward; c_catch := CatchAll;
-  c_fire := FireAllIfEmpty; c_marks := true; c_guard := FlushWhenIdle |}.
+  c_fire := FireAllIfEmpty; c_marks := true; c_guard := FlushWhenIdle; c_append_runs := false |}.
 
 (* `except Exception:` instead of the bare `except:` *)
 Definition exc_only_cfg : evcfg := {|
   c_pos := Tail; c_arms := true; c_clears := true; c_order := Forward; c_catch := CatchException;
-  c_fire := FireWhileEmpty; c_marks := true; c_guard := FlushWhenIdle |}.
+  c_fire := FireWhileEmpty; c_marks := true; c_guard := FlushWhenIdle; c_append_runs := false |}.
+
+(* an append() that, besides storing the entry, calls cb(..) itself *)
+Definition append_sync_cfg : evcfg := {|
+  c_pos := Tail; c_arms := true; c_clears := true; c_order := Forward; c_catch := CatchAll;
+  c_fire := FireWhileEmpty; c_marks := true; c_guard := FlushWhenIdle; c_append_runs := true |}.
 
 Record qstate := {
   events : list script;      (* self._events *)
-  flushers : list (Z * list script);   (* self._flushObservers, with what each callback will enqueue *)
+  flushers : list (Z * list act);   (* self._flushObservers, with the actions each one's callback will perform *)
   timer : bool;              (* self._timer is set *)
   sched : bool;              (* the reactor holds a pending call of _turn *)
   in_turn : bool             (* self._in_turn *)
@@ -68,9 +78,15 @@ Inductive ev :=
 | Ran (id : Z)                                       (* the queue invoked callable id *)
 | Raised (id : Z)                                    (* ... and it raised *)
 | Escaped (id : Z)                                   (* the exception left _turn *)
-| FlushFired (fid : Z) (pending : nat) (running : bool).
+| FlushFired (fid : Z) (pending : nat) (running : bool)
    (* the Deferred of flush request fid fired while `pending` submitted callables had not
       been started, `running` = a callable of a batch was executing *)
+| FlushReq (fid : Z) (deferred : bool)
+   (* flushEventualQueue() was called (request fid); deferred = the Deferred it returned had not fired yet,
+      i.e. it was registered in self._flushObservers *)
+| FlushPop (fid : Z).
+   (* _turn took the registered observer fid out of self._flushObservers in order to notify it
+      (the FlushFired fid event follows at once) *)
 
 Definition is_nil {A} (l : list A) : bool := match l with [] => true | _ => false end.
 
@@ -81,37 +97,69 @@ Definition enq1 (c : evcfg) (st : qstate) (s : script) : qstate :=
   {| events := evs; flushers := flushers st; timer := timer st || arm; sched := sched st || arm;
      in_turn := in_turn st |}.
 
-Definition set_flushers (st : qstate) (fl : list (Z * list script)) : qstate :=
+Definition set_flushers (st : qstate) (fl : list (Z * list act)) : qstate :=
   {| events := events st; flushers := fl; timer := timer st; sched := sched st; in_turn := in_turn st |}.
 
-(* a flush Deferred fires: the observation is made, then its callback enqueues cb.
+(* flush(): `if not self._events and not self._in_turn: return defer.succeed(None)` *)
+Definition flush_idle (c : evcfg) (st : qstate) : bool :=
+  match c_guard c with
+  | FlushWhenIdle => is_nil (events st) && negb (in_turn st)
+  | FlushWhenNoEvents => is_nil (events st)
+  | FlushNeverSync => false
+  end.
+
+(* the observation made when a flush Deferred fires.
    ctx = Some rest: a callable of the batch is running and `rest` have not started *)
-Definition notify (c : evcfg) (ctx : option (list script)) (st : qstate) (fid : Z) (cb : list script) : qstate * list ev :=
-  (fold_left (enq1 c) cb st,
-   FlushFired fid (List.length (match ctx with Some r => r | None => [] end) + List.length (events st))
-              (match ctx with Some _ => true | None => false end) :: map (fun s => Sub (sid s)) cb).
+Definition fired_ev (ctx : option (list script)) (st : qstate) (fid : Z) : ev :=
+  FlushFired fid (List.length (match ctx with Some r => r | None => [] end) + List.length (events st))
+             (match ctx with Some _ => true | None => false end).
 
-(* one action, performed either at top level (ctx = None) or by a callable of the batch
-   being run (ctx = Some rest, rest = the callables of the batch not started yet) *)
-Definition do_act (c : evcfg) (ctx : option (list script)) (st : qstate) (a : act) : qstate * list ev :=
+(* perform a list of actions, threading the state; f performs one action *)
+Definition run_list (f : qstate -> act -> qstate * list ev) : list act -> qstate -> qstate * list ev :=
+  fix go (l : list act) (st : qstate) {struct l} : qstate * list ev :=
+    match l with
+    | [] => (st, [])
+    | a :: l' => let '(st1, t1) := f st a in
+                 let '(st2, t2) := go l' st1 in (st2, t1 ++ t2)
+    end.
+
+(* one action, performed either at top level / by the callback of a flush Deferred that _turn fires
+   (ctx = None) or by a callable of the batch being run, or by a callback that fires synchronously
+   inside it (ctx = Some rest, rest = the callables of the batch not started yet).
+   flushEventualQueue(): when the queue is idle the Deferred comes back already fired, and the
+   callback added to it runs at once, nested, right there: its actions are performed (recursively)
+   before the action that follows the flush request.  Otherwise the request is appended to
+   self._flushObservers together with its callback.
+   eventually(s): the entry is stored (and _turn scheduled) as the facts c_pos / c_arms say.  When append() itself
+   calls cb (c_append_runs), the callable RUNS AT ONCE, inside eventually(): Ran, then what its actions do (performed
+   recursively, with "a callable is executing" as their context), and, if it raises, Raised and Escaped -- append() has no
+   try/except, the exception reaches the caller of eventually().  The entry stays queued, so the callable runs a second time
+   in its turn; that is what such code does.  Simplifications of that (never current) configuration: the entry is modelled
+   as appended and armed before the call wherever the call statement stands in append(), and after an escaped exception the
+   remaining actions of the enclosing callable / callback are still performed. *)
+Fixpoint do_act (c : evcfg) (ctx : option (list script)) (st : qstate) (a : act) {struct a} : qstate * list ev :=
   match a with
-  | AEnq s => (enq1 c st s, [Sub (sid s)])
+  | AEnq s =>
+      if c_append_runs c
+      then match s with
+           | Sc i acts k =>
+               let '(st', t) := run_list (do_act c (Some (match ctx with Some r => r | None => [] end))) acts (enq1 c st s) in
+               (st', Sub i :: Ran i :: t ++ match k with RNo => [] | _ => [Raised i; Escaped i] end)
+           end
+      else (enq1 c st s, [Sub (sid s)])
   | AFlush fid cb =>
-      let idle := match c_guard c with
-                  | FlushWhenIdle => is_nil (events st) && negb (in_turn st)
-                  | FlushWhenNoEvents => is_nil (events st)
-                  | FlushNeverSync => false
-                  end in
-      if idle then notify c ctx st fid cb
-      else (set_flushers st (flushers st ++ [(fid, cb)]), [])
+      if flush_idle c st
+      then let '(st', t) := run_list (do_act c ctx) cb st in
+           (st', FlushReq fid false :: fired_ev ctx st fid :: t)
+      else (set_flushers st (flushers st ++ [(fid, cb)]), [FlushReq fid true])
   end.
 
-Fixpoint run_acts (c : evcfg) (ctx : option (list script)) (st : qstate) (l : list act) : qstate * list ev :=
-  match l with
-  | [] => (st, [])
-  | a :: l' => let '(st1, t1) := do_act c ctx st a in
-               let '(st2, t2) := run_acts c ctx st1 l' in (st2, t1 ++ t2)
-  end.
+Definition run_acts (c : evcfg) (ctx : option (list script)) (st : qstate) (l : list act) : qstate * list ev :=
+  run_list (do_act c ctx) l st.
+
+(* a flush Deferred fires: the observation is made, then its callback performs cb *)
+Definition notify (c : evcfg) (ctx : option (list script)) (st : qstate) (fid : Z) (cb : list act) : qstate * list ev :=
+  let '(st', t) := run_acts c ctx st cb in (st', fired_ev ctx st fid :: t).
 
 Definition catches (c : evcfg) (k : rkind) : bool :=
   match c_catch c with
@@ -136,29 +184,55 @@ Fixpoint run_batch (c : evcfg) (st : qstate) (batch : list script) : qstate * li
       end
   end.
 
-(* `while self._flushObservers and not self._events: self._flushObservers.pop(0).callback(None)` *)
-Fixpoint fire_while (c : evcfg) (fl : list (Z * list script)) (st : qstate) : qstate * list ev :=
-  match fl with
-  | [] => (set_flushers st [], [])
-  | (f, cb) :: rest =>
-      if is_nil (events st)
-      then let '(st1, t1) := notify c None st f cb in
-           let '(st2, t2) := fire_while c rest st1 in (st2, t1 ++ t2)
-      else (set_flushers st fl, [])
+(* how many flush requests a list of actions can make at most while it is performed (the requests of
+   callbacks of callbacks included, and those of the scripts it enqueues: they run in a later turn under the
+   current code, but at once when append() calls them) *)
+Fixpoint act_flushes (a : act) : nat :=
+  match a with
+  | AEnq (Sc _ acts _) =>      (* counted for the configurations whose append() runs the callable at once *)
+      (fix go (l : list act) : nat := match l with [] => 0%nat | x :: l' => (act_flushes x + go l')%nat end) acts
+  | AFlush _ cb => S ((fix go (l : list act) : nat := match l with [] => 0%nat | x :: l' => (act_flushes x + go l')%nat end) cb)
+  end.
+Definition acts_flushes (l : list act) : nat := fold_right (fun a n => (act_flushes a + n)%nat) 0%nat l.
+(* upper bound of the number of notifications one run of the observer loop can make: the registered
+   observers plus every request their callbacks can make *)
+Definition obs_weight (fl : list (Z * list act)) : nat :=
+  fold_right (fun o n => (S (acts_flushes (snd o)) + n)%nat) 0%nat fl.
+
+(* `while self._flushObservers and not self._events: self._flushObservers.pop(0).callback(None)`.
+   The condition is evaluated on the LIVE list and queue before every iteration, and pop(0) removes the head
+   of the live list before the callback runs: observers which a callback appends (possible as soon as the
+   queue is not empty any more, or under a flush() that never answers at once) stay registered, in order, behind those
+   not served yet.  `fuel` bounds the number of iterations; [fire] starts it with obs_weight (flushers st),
+   which is never exhausted (EventualProofs.fire_while_complete: for every configuration the loop ends because
+   its condition is false). *)
+Fixpoint fire_while (c : evcfg) (fuel : nat) (st : qstate) {struct fuel} : qstate * list ev :=
+  match fuel with
+  | O => (st, [])
+  | S fuel' =>
+      match flushers st with
+      | [] => (st, [])
+      | (f, cb) :: rest =>
+          if is_nil (events st)
+          then let '(st1, t1) := notify c None (set_flushers st rest) f cb in
+               let '(st2, t2) := fire_while c fuel' st1 in (st2, FlushPop f :: t1 ++ t2)
+          else (st, [])
+      end
   end.
 
-(* `observers, self._flushObservers = self._flushObservers, []; for o in observers: o.callback(None)` *)
-Fixpoint fire_all (c : evcfg) (fl : list (Z * list script)) (st : qstate) : qstate * list ev :=
+(* `observers, self._flushObservers = self._flushObservers, []; for o in observers: o.callback(None)`:
+   fl is the snapshot; the live list (reset to [] by the caller) collects what the callbacks register *)
+Fixpoint fire_all (c : evcfg) (fl : list (Z * list act)) (st : qstate) : qstate * list ev :=
   match fl with
   | [] => (st, [])
   | (f, cb) :: rest =>
       let '(st1, t1) := notify c None st f cb in
-      let '(st2, t2) := fire_all c rest st1 in (st2, t1 ++ t2)
+      let '(st2, t2) := fire_all c rest st1 in (st2, FlushPop f :: t1 ++ t2)
   end.
 
 Definition fire (c : evcfg) (st : qstate) : qstate * list ev :=
   match c_fire c with
-  | FireWhileEmpty => fire_while c (flushers st) st
+  | FireWhileEmpty => fire_while c (obs_weight (flushers st)) st
   | FireAllIfEmpty => if is_nil (events st) then fire_all c (flushers st) (set_flushers st []) else (st, [])
   | FireAllAlways => fire_all c (flushers st) (set_flushers st [])
   end.
@@ -197,11 +271,35 @@ Fixpoint rans (t : list ev) : list Z :=
 Definition flush_ok (e : ev) : Prop :=
   match e with FlushFired _ n r => n = 0%nat /\ r = false | _ => True end.
 
+(* flush requests that were deferred (registered as observers), in request order *)
+Fixpoint fdeferred (t : list ev) : list Z :=
+  match t with [] => [] | FlushReq f d :: t' => if d then f :: fdeferred t' else fdeferred t' | _ :: t' => fdeferred t' end.
+(* all flush requests *)
+Fixpoint freqs (t : list ev) : list Z :=
+  match t with [] => [] | FlushReq f _ :: t' => f :: freqs t' | _ :: t' => freqs t' end.
+(* registered observers taken out of the list by _turn, in order *)
+Fixpoint fpopped (t : list ev) : list Z :=
+  match t with [] => [] | FlushPop f :: t' => f :: fpopped t' | _ :: t' => fpopped t' end.
+(* the notifications, in order *)
+Fixpoint ffired (t : list ev) : list Z :=
+  match t with [] => [] | FlushFired f _ _ :: t' => f :: ffired t' | _ :: t' => ffired t' end.
+(* what must be answered by a notification, in order: a request that finds the queue idle, a registered observer
+   that is taken out of the list *)
+Fixpoint fanswered (t : list ev) : list Z :=
+  match t with
+  | [] => []
+  | FlushReq f d :: t' => if d then fanswered t' else f :: fanswered t'
+  | FlushPop f :: t' => f :: fanswered t'
+  | _ :: t' => fanswered t'
+  end.
+
 (* ---- encoding of traces for the correspondence check (harness/c17.py) *)
 Definition enc_ev (e : ev) : list Z :=
   match e with
   | Sub i => [1; i] | Ran i => [2; i] | Raised i => [3; i] | Escaped i => [4; i]
   | FlushFired f n r => [5; f; Z.of_nat n; if r then 1 else 0]
+  | FlushReq f d => [6; f; if d then 1 else 0]
+  | FlushPop f => [7; f]
   end.
 Definition enc_trace (t : list ev) : list Z := flat_map enc_ev t.
 Definition enc_state (st : qstate) : list Z :=
